@@ -101,6 +101,9 @@ def translate():
         ("ifweightsisNone:weights,ess_est,_=self._compute_metric_and_weights(beta)".replace(":", ":\n"), "recompute"),
     ]:
         need(frag.replace("\n", "") in text.replace("\n", ""), fn, msg, w)
+    # every recorded evidence in run() is the one of the chosen beta (one call per metric mode, none at another temperature)
+    lz_calls = [_ns(c.args[0]) for c in ast.walk(fn) if isinstance(c, ast.Call) and _ns(c.func) == "self.state.compute_logw_and_logz"]
+    need(lz_calls == ["beta", "beta"], fn, f"evidence computed at {lz_calls}, expected the chosen beta in both modes", w)
     ifs = {}
     for node in ast.walk(fn):
         if isinstance(node, ast.If):
